@@ -10,7 +10,7 @@
    Scope ("common subset"): primitives, string, wstring, enumerations, sequences, arrays,
    FINAL and APPENDABLE structures, optional members; XCDR1 and XCDR2.  MUTABLE structures
    and unions are outside (the implementation is known not to round-trip there, see C09). *)
-From DustDDS Require Export Base.Machine Xcdr.XcdrBytes Xcdr.XcdrModel.
+From DustDDS Require Export Base.Machine Xcdr.XcdrBytes Xcdr.XcdrModel Xcdr.XcdrProps.
 Open Scope Z_scope.
 
 Section Spec.
@@ -146,3 +146,23 @@ Definition spec_encode (v : ver) (e : endian) (t : ty) (x : val) : list Z :=
   let body := spec_ty v e t x 0 in
   let n := (- (4 + blen body)) mod 4 in
   [0; ENC_ID v e (ty_ext t); 0; n] ++ body ++ zeros n.
+
+(* ---------------------------------------------------------------- scope of the comparison *)
+Definition is_wstr (t : ty) : bool := match t with TWStr => true | _ => false end.
+(* outside the subset on which implementation and specification encoder are PROVED equal:
+   unions and mutable types (not compared at all), wide strings (rule (4) read differently),
+   XCDR1 optional members (alignment origin after the parameter) *)
+Definition cbad (V : ver) (t : ty) : bool :=
+  is_union t || is_mutable t || is_wstr t ||
+  (match V with V1 => has_opt_member t | V2 => false end).
+Definition common (V : ver) (t : ty) : bool := wf_ty t && negb (ty_any (cbad V) t).
+
+(* classes of differences recorded for C10 (0 = none):
+   1 char8 >= 0x80 written as UTF-8   2 wide string format   3 XCDR1 optional member origin
+   4 XCDR1 float128: bytes agree, but the implementation cannot read them back (C09 class 2) *)
+Definition c10_class (v : ver) (t : ty) (x : val) : N :=
+  if val_nonascii_char x then 1%N
+  else if ty_any is_wstr t then 2%N
+  else if (match v with V1 => true | V2 => false end) && ty_any has_opt_member t then 3%N
+  else if (match v with V1 => true | V2 => false end) && ty_any is_f128 t then 4%N
+  else 0%N.
